@@ -311,12 +311,15 @@ func wtScenario(kind int, r *rand.Rand, salt uint64) (string, string) {
 	if closeState == "ret" {
 		// after Writer.Close: CloseIdleConnections ran; connections that were busy close when their request completes
 		// (≤ the metadata answer delay) — all well inside this bound
-		n := settle(base, 1500*time.Millisecond)
+		n := settle(base, censusBound())
 		rec.add("lk/%d", n)
 		oc := int(atomic.LoadInt32(&br.open))
-		for i := 0; i < 750 && oc != 0; i++ {
+		for i := 0; i < censusSteps() && oc != 0; i++ {
 			time.Sleep(2 * time.Millisecond)
 			oc = int(atomic.LoadInt32(&br.open))
+		}
+		if oc != 0 {
+			noteStuck()
 		}
 		rec.add("oc/%d", oc)
 		leak = strconv.Itoa(n)
